@@ -23,6 +23,7 @@ func init() {
 	Register("Materialize", opMaterialize)
 	Register("Clone", opClone)
 	Register("ShallowClone", opShallowClone)
+	Register("ShallowReturn", opShallowReturn)
 	Register("Copy", opCopy)
 	Register("Memset", opMemset)
 	Register("Zero", opZero)
@@ -477,6 +478,25 @@ func opClone(w *World, st *Step) execResult {
 func opShallowClone(w *World, st *Step) execResult {
 	r := w.T(st.Op.H).ShallowClone() // no allocation: the storage is the operand's
 	return execResult{ret: r}
+}
+
+// a shallow clone handed straight back to the pools, followed by other pool users that borrow, scribble and return
+func opShallowReturn(w *World, st *Step) execResult {
+	tensor.ReturnTensor(w.T(st.Op.H).ShallowClone())
+	var held [][]int
+	for sz := 0; sz <= 4; sz++ {
+		for k := 0; k < 3; k++ {
+			s := tensor.BorrowInts(sz)
+			for i := range s {
+				s[i] = 7777
+			}
+			held = append(held, s)
+		}
+	}
+	for _, s := range held {
+		tensor.ReturnInts(s)
+	}
+	return execResult{}
 }
 
 func opCopy(w *World, st *Step) execResult {
